@@ -553,7 +553,7 @@ Proof.
       - ret. }
     destruct ignorer as [ig|]; [apply S_skipto_ign; [exact Hi|exact Hl|exact Hin]|apply Hin; exact Hl]. }
   destruct failon as [fo|]; [|exact Hafter].
-  apply S_can_parse_next; [exact Hf|exact Hl|]. intros [|]; [apply Hkk; exact Hl|exact Hafter].
+  apply S_can_parse_next; [exact Hf|exact Hl|]. intros [|]; [apply S_fail; apply bx_nat; exact Hl0|exact Hafter].
 Qed.
 
 (* ---- Each ---- *)
